@@ -151,17 +151,52 @@ func scenarioSegments() int {
 			}
 		}
 		cuts = normCuts(cuts, len(raw))
+		// every third stream shares the listener with other connections that are opened,
+		// used and closed while this one is in the middle of its stream
+		var others []*wire.TCPConn
+		var otherIDs []string
+		interleave := s%3 == 2
+		if interleave {
+			kind += "+other-connections"
+		}
 		prev := 0
-		for _, c := range append(cuts, len(raw)) {
+		for ci, c := range append(cuts, len(raw)) {
 			conn.Send(raw[prev:c], "")
 			segsWritten++
 			prev = c
 			time.Sleep(time.Duration(300+g.R.Intn(900)) * time.Microsecond)
+			if interleave && (ci == 0 || g.R.Intn(4) == 0) && len(others) < 4 {
+				if oc, err := w.Net.Dial(fmt.Sprintf("ua%d/other", w.UAs[path.UA].Index), w.UAs[path.UA].IP+":0", w.ListenerAddr(path)); err == nil {
+					seq++
+					oid := fmt.Sprintf("f%d", seq)
+					om := wire.StdRequest(oid, "OPTIONS", fmt.Sprintf("sip:svc%d.verif.test", svc), "tcp", w.UAs[path.UA].IP, wire.UDPPort)
+					if sv.HasDef {
+						wire.SetHeader(om, "To", "<tel:+15550167>")
+					}
+					ob := om.Bytes()
+					oc.Send(ob[:len(ob)/2], "")
+					time.Sleep(300 * time.Microsecond)
+					oc.Send(ob[len(ob)/2:], "")
+					others = append(others, oc)
+					otherIDs = append(otherIDs, oid)
+					msgs = append(msgs, om)
+					ids = append(ids, oid)
+				}
+			}
+		}
+		for _, oc := range others {
+			// each of the other connections must have delivered its message as well
+			defer oc.Close(false)
 		}
 		// everything must have been processed once the sentinel on the same connection is through
 		if !w.Barrier(path) {
 			run.Violation("the connection stopped delivering after a segmented stream (sentinel on the same connection not relayed)", map[string]any{"stream_bytes": len(raw), "cuts": cuts, "split": kind, "messages": n, "stream_head": clip(string(raw), 1200)})
 			continue
+		}
+		// the other connections are served by goroutines of their own: the sentinel of this
+		// connection says nothing about them, so their messages are awaited (bounded)
+		for _, oid := range otherIDs {
+			w.Net.WaitCase(oid, func(o []*wire.Obs) bool { return len(o) >= 1 }, w.BarrierWait)
 		}
 		sig := fmt.Sprintf("n%d|long%v|look%v|%s", vfMin(n, 4), long > 0, look > 0, kind)
 		bad := false
